@@ -95,6 +95,39 @@ def run(c):
         se = parquet_thrift.SchemaElement(type=parquet_thrift.Type.BOOLEAN, name="x")
         res = writer.convert(s, se)
         return {"out": bytes(res).hex()}
+    if k == "thrift_build":
+        # c["tree"]: {"name":..., "i32ids":[...], "fields": {fname: leaf|tree|[...]}} ; leaves: {"t":"int","v":..} etc.
+        def build(t):
+            kw = {}
+            for fname, v in t["fields"].items():
+                kw[fname] = conv(v)
+            return ce.ThriftObject.from_fields(t["name"], i32list=t["i32ids"] or None, **kw)
+
+        def conv(v):
+            if isinstance(v, list):
+                return [conv(x) for x in v]
+            if "fields" in v:
+                return build(v)
+            tt = v["t"]
+            if tt == "bool":
+                return bool(v["v"])
+            if tt == "int":
+                return int(v["v"])
+            if tt == "float":
+                import struct as _s
+                return _s.unpack("<d", int(v["v"]).to_bytes(8, "little"))[0]
+            if tt == "bytes":
+                return bytes.fromhex(v["v"])
+            if tt == "str":
+                return bytes.fromhex(v["v"]).decode("utf8")
+            raise ValueError(tt)
+        obj = build(c["tree"])
+        b1 = bytes(obj.to_bytes())
+        back = ce.from_buffer(np.frombuffer(b1, dtype="uint8"), c["tree"]["name"]) if len(b1) else None
+        b2 = bytes(back.to_bytes()) if back is not None else b""
+        import pickle
+        b3 = bytes(pickle.loads(pickle.dumps(obj)).to_bytes())
+        return {"out": b1.hex(), "reser": b2.hex(), "eq": bool(obj == back) if back is not None else None, "pickle": b3.hex()}
     if k == "thrift_roundtrip":
         # bytes -> from_buffer -> to_bytes
         buf = np.frombuffer(bytes.fromhex(c["in"]), dtype="uint8")
